@@ -639,3 +639,24 @@ Proof.
   - rewrite (forallb_nth _ _ (mkSess RExit WDone HExit false true true true true)). intros i Hi. apply F'; [|lia].
     unfold rest_of. apply in_or_app. right. apply in_map. apply in_seq. lia.
 Qed.
+
+
+(* ---- an ended session keeps nothing ---- *)
+(* at any moment of any schedule: a session whose close callback has run is unregistered, has released its wait-group unit and
+   its reader, its socket is closed, and what is left of it - a read pump, the reader - ends by its own next step *)
+Theorem ended_session_leaves ls i : let s := exec good init ls in
+  i < length (ss s) -> wp (getS s i) = WDone ->
+  reg (getS s i) = false /\ rel (getS s i) = true /\ sock (getS s i) = true /\
+  (rp (getS s i) <> RExit -> exists s', step good s (LRp i) = Some s') /\
+  (hr (getS s i) = HRun -> exists s', step good s (LHr i) = Some s').
+Proof.
+  intros s Hi W. pose proof (inv_exec ls init inv_init) as I. fold s in I.
+  pose proof (i_nc _ I) as NC. destruct (i_ss _ I i Hi) as [_ SL SD _ _ SR].
+  destruct SL as [CC SK]; [unfold wp_left; rewrite W; reflexivity|].
+  apply Nat.ltb_lt in Hi as Hi'.
+  split; [auto|]. split; [auto|]. split; [auto|]. split.
+  - intros R. unfold step. rewrite NC, Hi'. cbn [negb]. cbv zeta. destruct (rp (getS s i)) eqn:E; [| |contradiction].
+    + rewrite SK. eauto.
+    + cbn [srp_cconn good andb]. rewrite CC. eauto.
+  - intros H. unfold step. rewrite NC, Hi'. cbn [negb]. rewrite H, (SR W). eauto.
+Qed.
